@@ -1,1 +1,425 @@
-/-! C18 — property theorems (placeholder until the model exists). -/
+import EupsModel.Lemmas.Manifest
+/-! C18 — distribution manifests and tag lists round-trip and keep install order; remap.  Property theorems only
+(model: `Model/Manifest.lean`, helper lemmas: `Lemmas/Manifest.lean`).
+
+Reading.  A *word* (`Tok`) is a non-empty string without white space in Python's sense.  The round trip is claimed
+for entries whose product and version are words (the product not starting with `#`), whose flavor, table file and
+directory are missing or words, and whose distribution id is missing or a word other than the two reserved words of
+the format (`None`, `search`) — `DepOk`.  A missing table file or directory is written `none` and read back as the
+text `none`; a missing flavor is written as the `flavor=` argument or the native flavor (`roundDep`). -/
+namespace EupsModel.C18
+open EupsModel EupsModel.Manifest
+
+theorem tok_unknown : Tok sUNKNOWN := ⟨by decide, by decide⟩
+theorem tok_generic : Tok sGeneric := ⟨by decide, by decide⟩
+
+theorem manHeader_chars (m : Manifest) (hprod : ∀ s, m.product = some s → Tok s)
+    (hver : ∀ s, m.version = some s → Tok s) : ∀ c ∈ manHeader m, c ≠ 10 ∧ c ≠ 13 := by
+  have hp : Tok (m.product.getD sUNKNOWN) := by
+    cases h : m.product with
+    | none => exact tok_unknown
+    | some s => exact hprod s h
+  have hv : Tok (m.version.getD sGeneric) := by
+    cases h : m.version with
+    | none => exact tok_generic
+    | some s => exact hver s h
+  intro c hc
+  simp only [manHeader, List.mem_append] at hc
+  rcases hc with (((((h | h) | h) | h) | h) | h) | h
+  · revert c; decide
+  · exact ⟨hp.no_nl c h, hp.no_cr c h⟩
+  · revert c; decide
+  · exact ⟨hv.no_nl c h, hv.no_cr c h⟩
+  · revert c; decide
+  · revert c; decide
+  · revert c; decide
+
+/-- **C18, manifests (core).**  For every dependency list — any length and order, mixed flavors, optional entries,
+missing table files, directories and distribution ids — whose written entries are `DepOk`, every `flavor=` argument,
+both values of `noOptional` and any comment block: the manifest that `Manifest.write` produces is read back by
+`Manifest.read` as the written entries, in the same order, each with the same product, version, table file,
+directory and distribution id, and with the flavor it was written with. -/
+theorem C18_manifest_roundtrip (o : WriteOpts) (comments : List Str) (m : Manifest) (recurse : Bool)
+    (hn : Tok o.native) (ho : OptTok o.flavor)
+    (hprod : ∀ s, m.product = some s → Tok s) (hver : ∀ s, m.version = some s → Tok s)
+    (hc : ∀ l ∈ comments, isBlankOrComment l = true ∧ ∀ c ∈ l, c ≠ 10 ∧ c ≠ 13)
+    (hd : ∀ p ∈ written o m, DepOk p) :
+    read false recurse (write o comments m) =
+      .ok { product := some (m.product.getD sUNKNOWN), version := some (m.version.getD sGeneric),
+            deps := (written o m).map (roundDep o recurse) } := by
+  have hp : Tok (m.product.getD sUNKNOWN) := by
+    cases h : m.product with
+    | none => exact tok_unknown
+    | some s => exact hprod s h
+  have hv : Tok (m.version.getD sGeneric) := by
+    cases h : m.version with
+    | none => exact tok_generic
+    | some s => exact hver s h
+  have hchars : ∀ l ∈ writeLines o comments m, ∀ c ∈ l, c ≠ 10 ∧ c ≠ 13 := by
+    intro l hl
+    simp only [writeLines, List.mem_cons, List.mem_append, List.mem_map] at hl
+    rcases hl with (rfl | hl) | ⟨p, hp', rfl⟩
+    · exact manHeader_chars m hprod hver
+    · exact (hc l hl).2
+    · exact entryLine_no_nl o p hn ho (hd p hp')
+  unfold EupsModel.Manifest.read EupsModel.Manifest.write
+  rw [lines_univ_unlines _ (fun l hl c hcl => (hchars l hl c hcl).1) (fun l hl c hcl => (hchars l hl c hcl).2)]
+  have hh : parseManHeader (manHeader m) = some (m.product.getD sUNKNOWN, m.version.getD sGeneric) := by
+    simpa [manHeader] using parseManHeader_manHeader _ _ hp hv
+  have he : parseEntries false recurse (comments ++ (written o m).map (entryLine o)) =
+      .ok ((written o m).map (roundDep o recurse)) := by
+    rw [parseEntries_comments recurse comments _ (fun l hl => (hc l hl).1),
+      parseEntries_entries o recurse (written o m) hn ho hd]
+  exact readLines_cons false recurse _ _ _ _ _ hh he
+
+/-- the products come back in install order -/
+theorem C18_manifest_same_order (o : WriteOpts) (comments : List Str) (m : Manifest) (recurse : Bool)
+    (hn : Tok o.native) (ho : OptTok o.flavor)
+    (hprod : ∀ s, m.product = some s → Tok s) (hver : ∀ s, m.version = some s → Tok s)
+    (hc : ∀ l ∈ comments, isBlankOrComment l = true ∧ ∀ c ∈ l, c ≠ 10 ∧ c ≠ 13)
+    (hd : ∀ p ∈ written o m, DepOk p) :
+    ∃ m', read false recurse (write o comments m) = .ok m' ∧
+      m'.deps.map (fun p => (p.product, p.version, p.distId)) =
+        (written o m).map (fun p => (p.product, p.version, p.distId)) := by
+  refine ⟨_, C18_manifest_roundtrip o comments m recurse hn ho hprod hver hc hd, ?_⟩
+  simp [List.map_map, Function.comp_def, roundDep]
+
+/-- with `noOptional=False` (as `Distrib.writeManifest` calls it) every entry is written -/
+theorem C18_manifest_all_written (o : WriteOpts) (m : Manifest) (h : o.noOptional = false) : written o m = m.deps := by
+  simp [written, h]
+
+/-- an entry with a flavor of its own keeps it when no `flavor=` is given (the repaired D13) -/
+theorem C18_manifest_keeps_flavor (o : WriteOpts) (p : Dep) (f : Str) (ho : falsy o.flavor = true)
+    (hf : p.flavor = some f) (hne : f ≠ []) : flavorCol o p = f := by
+  have : falsy (some f) = false := by
+    cases f with
+    | nil => exact absurd rfl hne
+    | cons _ _ => rfl
+  simp [flavorCol, ho, hf, this]
+
+/-- Non-vacuity: three entries of three flavors, one without flavor, table, directory and distribution id. -/
+example :
+    let d1 : Dep := { product := Str.ofString "python", version := Str.ofString "2.6.2", flavor := some (Str.ofString "DarwinX86"),
+                      tablefile := some (Str.ofString "python.table"), instDir := some (Str.ofString "DarwinX86/python/2.6.2"),
+                      distId := some (Str.ofString "python-2.6.2.tar.gz") }
+    let d2 : Dep := { product := Str.ofString "afw", version := Str.ofString "1.0", flavor := none, tablefile := none, instDir := none,
+                      distId := none, isOpt := true }
+    let m : Manifest := { product := some (Str.ofString "top"), version := none, deps := [d1, d2] }
+    let o : WriteOpts := { noOptional := false, native := Str.ofString "Linux" }
+    (read false false (write o [Str.ofString "# pkg flavor"] m)).toOption =
+      some { product := some (Str.ofString "top"), version := some (Str.ofString "generic"),
+             deps := [{ d1 with }, { product := Str.ofString "afw", version := Str.ofString "1.0", flavor := some (Str.ofString "Linux"),
+                                     tablefile := some (Str.ofString "none"), instDir := some (Str.ofString "none"), distId := none }] } := by
+  decide
+
+/-- **D13, pinned tree (negation witnesses).**  The pinned writer (`if not flavor: p.flavor = flavor`) writes the
+native flavor for an entry that has its own ... -/
+theorem C18_flavor_pinned_witness :
+    let d : Dep := { product := [112], version := [49], flavor := some (Str.ofString "DarwinX86"), tablefile := none,
+                     instDir := none, distId := some [120] }
+    let o : WriteOpts := { native := Str.ofString "Linux" }
+    flavorColPinned o d = Str.ofString "Linux" ∧ flavorCol o d = Str.ofString "DarwinX86" ∧
+      flavorColPinned { o with flavor := some (Str.ofString "Linux64") } d = Str.ofString "DarwinX86" ∧
+      flavorCol { o with flavor := some (Str.ofString "Linux64") } d = Str.ofString "Linux64" := by
+  decide
+
+/-- ... and the pinned `Dependency.__init__` (`distId == None`) keeps the text `None` as a distribution id. -/
+theorem C18_distid_pinned_witness :
+    let d : Dep := { product := [112], version := [49], flavor := none, tablefile := none, instDir := none, distId := none }
+    let m : Manifest := { product := some [116], version := some [49], deps := [d] }
+    let o : WriteOpts := { native := Str.ofString "Linux" }
+    (read true false (write o [] m)).toOption.map (fun m' => m'.deps.map (·.distId)) = some [some (Str.ofString "None")] ∧
+      (read false false (write o [] m)).toOption.map (fun m' => m'.deps.map (·.distId)) = some [none] := by
+  decide
+
+/-! ## tag lists -/
+
+/-- **C18, tag lists: same entries, in sorted order.**  A tagged-release list written by `TaggedProductList.write`
+(with or without `flavor=`) and read by a reader of flavor `F` yields, for the products in *sorted* order, exactly
+the entries whose flavor is `F` or `generic` (which stands for `F`), each with its version and extra words. -/
+theorem C18_taglist_roundtrip (t : TagList) (fa : Option Str) (F : Str) (comments : List Str)
+    (htag : ∀ c ∈ t.tag, c ≠ 10 ∧ c ≠ 13)
+    (hc : ∀ l ∈ comments, isBlankOrComment l = true ∧ ∀ c ∈ l, c ≠ 10 ∧ c ≠ 13)
+    (hnd : t.products.Nodup)
+    (hok : ∀ p ∈ t.products, TagEntryOk fa p ((assocGet t.info p).getD [])) :
+    ∃ r, (TagList.empty t.tag (some F)).read (t.write fa comments) = .ok r ∧
+      r.getProducts = (sortStrs t.products).filterMap (fun p => keepEntry fa F p ((assocGet t.info p).getD [])) := by
+  have hperm := sortStrs_perm t.products
+  have hmem : ∀ p ∈ sortStrs t.products, p ∈ t.products := fun p hp => hperm.mem_iff.mp hp
+  have hchars : ∀ l ∈ t.writeLines fa comments, ∀ c ∈ l, c ≠ 10 ∧ c ≠ 13 := by
+    intro l hl
+    simp only [TagList.writeLines, List.mem_cons, List.mem_append, List.mem_map] at hl
+    rcases hl with (rfl | hl) | ⟨p, hp, rfl⟩
+    · intro c hcc
+      simp only [tagHeader, List.mem_append] at hcc
+      rcases hcc with ((((h | h) | h) | h) | h) | h
+      · revert c; decide
+      · exact htag c h
+      · revert c; decide
+      · revert c; decide
+      · revert c; decide
+      · revert c; decide
+    · exact (hc l hl).2
+    · exact tagLine_no_nl fa p _ (hok p (hmem p hp))
+  have hl : lines (univNewlines (t.write fa comments)) = t.writeLines fa comments := by
+    unfold TagList.write
+    exact lines_univ_unlines _ (fun l hl c hcl => (hchars l hl c hcl).1) (fun l hl c hcl => (hchars l hl c hcl).2)
+  have hinv : TagInv (TagList.empty t.tag (some F)) F := ⟨rfl, rfl, List.nodup_nil⟩
+  obtain ⟨r, hr, hg⟩ := tagEntries_lines fa F (fun p => (assocGet t.info p).getD []) (sortStrs t.products)
+    (TagList.empty t.tag (some F)) hinv (hperm.nodup_iff.mpr hnd) (fun p _ => by simp [TagList.empty])
+    (fun p hp => hok p (hmem p hp))
+  refine ⟨r, ?_, ?_⟩
+  · have hread := tagRead_of_lines (TagList.empty t.tag (some F)) (t.write fa comments) (tagHeader t.tag)
+      (comments ++ (sortStrs t.products).map fun p => tagLine fa p ((assocGet t.info p).getD []))
+      (by rw [hl]; rfl) (parseTagHeader_tagHeader t.tag)
+    rw [hread, tagEntries_comments _ _ _ (fun l hl => (hc l hl).1)]
+    exact hr
+  · rw [hg]; simp [TagList.getProducts, TagList.empty]
+
+/-- the same *set* of entries as the list held for that reader (in some order) -/
+theorem C18_taglist_same_entries (t : TagList) (fa : Option Str) (F : Str) (comments : List Str)
+    (htag : ∀ c ∈ t.tag, c ≠ 10 ∧ c ≠ 13)
+    (hc : ∀ l ∈ comments, isBlankOrComment l = true ∧ ∀ c ∈ l, c ≠ 10 ∧ c ≠ 13)
+    (hnd : t.products.Nodup)
+    (hok : ∀ p ∈ t.products, TagEntryOk fa p ((assocGet t.info p).getD [])) :
+    ∃ r, (TagList.empty t.tag (some F)).read (t.write fa comments) = .ok r ∧
+      r.getProducts.Perm (t.products.filterMap (fun p => keepEntry fa F p ((assocGet t.info p).getD []))) := by
+  obtain ⟨r, hr, hg⟩ := C18_taglist_roundtrip t fa F comments htag hc hnd hok
+  exact ⟨r, hr, hg ▸ (sortStrs_perm t.products).filterMap _⟩
+
+/-- **"same order", partial** — hypothesis: the products were added in sorted order. -/
+theorem C18_taglist_order_partial (t : TagList) (fa : Option Str) (F : Str) (comments : List Str)
+    (htag : ∀ c ∈ t.tag, c ≠ 10 ∧ c ≠ 13)
+    (hc : ∀ l ∈ comments, isBlankOrComment l = true ∧ ∀ c ∈ l, c ≠ 10 ∧ c ≠ 13)
+    (hnd : t.products.Nodup)
+    (hok : ∀ p ∈ t.products, TagEntryOk fa p ((assocGet t.info p).getD []))
+    (hsorted : SortedAdj t.products) :
+    ∃ r, (TagList.empty t.tag (some F)).read (t.write fa comments) = .ok r ∧
+      r.getProducts = t.products.filterMap (fun p => keepEntry fa F p ((assocGet t.info p).getD [])) := by
+  obtain ⟨r, hr, hg⟩ := C18_taglist_roundtrip t fa F comments htag hc hnd hok
+  exact ⟨r, hr, by rw [hg, sortStrs_sorted_id _ hsorted]⟩
+
+/-- Non-vacuity (sorted insertion, a `generic` entry, an entry of another flavor that the reader drops). -/
+example :
+    let t := (((TagList.empty (Str.ofString "current") (some (Str.ofString "Linux"))).addProduct (Str.ofString "afw")
+      (Str.ofString "1.0") none []).addProduct (Str.ofString "boost") (Str.ofString "2") (some (Str.ofString "generic"))
+      [Str.ofString "x"]).addProduct (Str.ofString "cfitsio") (Str.ofString "3") (some (Str.ofString "DarwinX86")) []
+    ((TagList.empty (Str.ofString "current") (some (Str.ofString "Linux"))).read (t.write none [])).toOption.map
+        TagList.getProducts =
+      some [[Str.ofString "afw", Str.ofString "Linux", Str.ofString "1.0"],
+            [Str.ofString "boost", Str.ofString "Linux", Str.ofString "2", Str.ofString "x"]] := by
+  decide
+
+/-- **D14 (negation witness): the unrestricted "same order" clause is false** — `python` added before `afw` comes
+back after it. -/
+theorem C18_taglist_order_witness :
+    let t := ((TagList.empty (Str.ofString "current") (some (Str.ofString "Linux"))).addProduct (Str.ofString "python")
+      (Str.ofString "2.6") none []).addProduct (Str.ofString "afw") (Str.ofString "1.0") none []
+    t.getProducts.map (·.head?) = [some (Str.ofString "python"), some (Str.ofString "afw")] ∧
+      ((TagList.empty (Str.ofString "current") (some (Str.ofString "Linux"))).read (t.write none [])).toOption.map
+        (fun r => r.getProducts.map (·.head?)) = some [some (Str.ofString "afw"), some (Str.ofString "python")] := by
+  decide
+
+/-! ## remap -/
+
+/-- **C18, remap touches exactly the entries it names (frame part).**  Whatever the rules (any number, any order,
+any flavors, overwriting or not): entries of products that no rule mentions come through `remapEntries`' loop
+untouched and in place — the result is the list filtered and rewritten by a function that is the identity on them. -/
+theorem C18_remap_exact (rules : List Rule) (fl : Str) (deps : List Dep) :
+    ∃ g : Dep → Option Dep, remapDeps (buildMapping false rules) fl deps = deps.filterMap g ∧
+      ∀ p, (∀ r ∈ rules, r.inP ≠ p.product) → g p = some p := by
+  refine ⟨_, rfl, ?_⟩
+  intro p hp
+  simp [apply_unmentioned false rules p.product p.version fl hp]
+
+theorem filterMap_id_on {α : Type} (g : α → Option α) (l : List α) (h : ∀ x ∈ l, g x = some x) : l.filterMap g = l := by
+  induction l with
+  | nil => rfl
+  | cons x r ih => rw [List.filterMap_cons, h x (by simp), ih (fun y hy => h y (by simp [hy]))]
+
+/-- in particular a list none of whose products is mentioned is returned as it is -/
+theorem C18_remap_unmentioned_list (rules : List Rule) (fl : Str) (deps : List Dep)
+    (h : ∀ p ∈ deps, ∀ r ∈ rules, r.inP ≠ p.product) : remapDeps (buildMapping false rules) fl deps = deps := by
+  obtain ⟨g, hg, hid⟩ := C18_remap_exact rules fl deps
+  rw [hg]
+  exact filterMap_id_on g deps (fun p hp => hid p (h p hp))
+
+/-- what one rule `P:V  [Q:]W` (generic flavor) builds -/
+theorem single_rule_map (P V : Str) (outP : Option Str) (W : Str) (hW : W ≠ []) (hnr : lowerAscii W ≠ sNoreinstall) :
+    (buildMapping false [{ inP := P, inV := V, outP := outP, outV := some W, flavor := sGeneric }]).map =
+      [(sGeneric, [(P, [(V, (if falsy outP then P else outP.getD [], some W))])])] := by
+  have h1 : falsy (some W) = false := by
+    cases W with
+    | nil => exact absurd rfl hW
+    | cons _ _ => rfl
+  have h2 : (lowerAscii W == sNoreinstall) = false := by simpa using hnr
+  simp [buildMapping, addRule, Mapping.addP, h1, h2, tableAdd, assocGet, assocSet]
+
+/-- **replace / rename.**  The rule `P:V  [Q:]W` maps `P V` to `Q W` (to `P W` without `Q`) for every flavor ... -/
+theorem C18_remap_rule_names (P V : Str) (outP : Option Str) (W fl : Str) (hW : W ≠ []) (hnr : lowerAscii W ≠ sNoreinstall) :
+    (buildMapping false [{ inP := P, inV := V, outP := outP, outV := some W, flavor := sGeneric }]).apply P V fl =
+      (if falsy outP then P else outP.getD [], some W) := by
+  simp only [Mapping.apply, Mapping.apply1, single_rule_map P V outP W hW hnr]
+  by_cases hf : fl = sGeneric
+  · subst hf; simp [assocGet]
+  · simp [assocGet, hf, Ne.symm hf]
+
+/-- ... and leaves every other version of `P` alone (`V` an explicit version). -/
+theorem C18_remap_rule_other_version (P V V' : Str) (outP : Option Str) (W fl : Str) (hW : W ≠ [])
+    (hnr : lowerAscii W ≠ sNoreinstall) (hV : V' ≠ V) (hany : V ≠ sAny) :
+    (buildMapping false [{ inP := P, inV := V, outP := outP, outV := some W, flavor := sGeneric }]).apply P V' fl =
+      (P, some V') := by
+  simp only [Mapping.apply, Mapping.apply1, single_rule_map P V outP W hW hnr]
+  have h1 : ¬ V = V' := fun e => hV e.symm
+  have h2 : ¬ V = sAny := hany
+  by_cases hf : fl = sGeneric
+  · subst hf; simp [assocGet, h1, h2]
+  · simp [assocGet, hf, Ne.symm hf, h1, h2]
+
+/-- **delete (repaired D25).**  The rule `P:V None` removes `P V` ... -/
+theorem C18_remap_rule_deletes (P V fl : Str) :
+    (buildMapping false [{ inP := P, inV := V, outP := none, outV := none, flavor := sGeneric }]).apply P V fl =
+      (P, none) := by
+  have hm : (buildMapping false [{ inP := P, inV := V, outP := none, outV := none, flavor := sGeneric }]).map =
+      [(sGeneric, [(P, [(V, (P, none))])])] := by
+    simp [buildMapping, addRule, Mapping.addP, falsy, tableAdd, assocGet, assocSet]
+  simp only [Mapping.apply, Mapping.apply1, hm]
+  by_cases hf : fl = sGeneric
+  · subst hf; simp [assocGet]
+  · simp [assocGet, hf, Ne.symm hf]
+
+/-- ... and no other version of `P`. -/
+theorem C18_remap_rule_deletes_only (P V V' fl : Str) (hV : V' ≠ V) (hany : V ≠ sAny) :
+    (buildMapping false [{ inP := P, inV := V, outP := none, outV := none, flavor := sGeneric }]).apply P V' fl =
+      (P, some V') := by
+  have hm : (buildMapping false [{ inP := P, inV := V, outP := none, outV := none, flavor := sGeneric }]).map =
+      [(sGeneric, [(P, [(V, (P, none))])])] := by
+    simp [buildMapping, addRule, Mapping.addP, falsy, tableAdd, assocGet, assocSet]
+  simp only [Mapping.apply, Mapping.apply1, hm]
+  have h1 : ¬ V = V' := fun e => hV e.symm
+  by_cases hf : fl = sGeneric
+  · subst hf; simp [assocGet, h1, hany]
+  · simp [assocGet, hf, Ne.symm hf, h1, hany]
+
+/-- **D25, pinned tree (negation witness):** `eigen:1.0 None` also removed `eigen 2.0`. -/
+theorem C18_delete_pinned_witness :
+    let r : Rule := { inP := Str.ofString "eigen", inV := Str.ofString "1.0", outP := none, outV := none, flavor := sGeneric }
+    (buildMapping true [r]).apply (Str.ofString "eigen") (Str.ofString "2.0") (Str.ofString "Linux") =
+        (Str.ofString "eigen", none) ∧
+      (buildMapping false [r]).apply (Str.ofString "eigen") (Str.ofString "2.0") (Str.ofString "Linux") =
+        (Str.ofString "eigen", some (Str.ofString "2.0")) := by
+  decide
+
+/-- **D24/D26, pinned tree (negation witness):** `[create]afwdata None` in manifest.remap removed afwdata from a
+manifest remapped with `mode=None`; the repaired reader applies the line only in mode `create`. -/
+theorem C18_mode_pinned_witness :
+    let d1 : Dep := { product := Str.ofString "afwdata", version := Str.ofString "1.0", flavor := none, tablefile := none,
+                      instDir := none, distId := none }
+    let d2 : Dep := { product := Str.ofString "python", version := Str.ofString "2.6", flavor := none, tablefile := none,
+                      instDir := none, distId := none }
+    let files := [[Str.ofString "[create]afwdata              None"]]
+    remapEntriesPinned {} none files (Str.ofString "Linux") [d1, d2] = some [d2] ∧
+      remapEntries {} none files (Str.ofString "Linux") [d1, d2] = some [d1, d2] ∧
+      remapEntries {} (some (Str.ofString "create")) files (Str.ofString "Linux") [d1, d2] = some [d2] := by
+  decide
+
+/-! ## inverse -/
+
+/-- one-to-one: no two entries of the table (of one flavor) have the same image -/
+def OneToOne (m : Mapping) : Prop := (entries m.map).Pairwise (fun a b => outKey a ≠ outKey b)
+
+/-- explicit: no entry is a removal, products are named, in-versions are genuine versions -/
+def Explicit (m : Mapping) : Prop := ∀ e ∈ entries m.map, EntryOk e
+
+/-- **C18, inverse.**  For a one-to-one mapping of explicit versions `inverse()` succeeds, and for every entry
+`p:v -> q:w` of the table of a flavor `f` the inverse's table of that flavor takes `q:w` back to `p:v`
+(`apply1` is `Mapping._apply`, the look-up in one flavor's table). -/
+theorem C18_inverse (m : Mapping) (h1 : OneToOne m) (h2 : Explicit m) :
+    ∃ inv, m.inverse = some inv ∧
+      ∀ f p v q w, lk m.map f p v = some (q, some w) →
+        m.apply1 p v f = (q, some w) ∧ inv.apply1 q w f = (p, some v) := by
+  obtain ⟨inv, hfold, himg, _⟩ := fold_stepInv (entries m.map) {} h1 h2
+    (fun _ _ _ _ => by simp [lk, prodTable, assocGet])
+  refine ⟨inv, by rw [inverse_eq_fold]; exact hfold, ?_⟩
+  intro f p v q w hlk
+  refine ⟨apply1_of_lk m p v f _ hlk, ?_⟩
+  have hmem := mem_entries_of_lk m.map f p v q (some w) hlk
+  exact apply1_of_lk inv q w f _ (himg _ hmem w rfl)
+
+/-- for the `generic` table `apply` is that look-up: the inverse undoes the mapping -/
+theorem C18_inverse_generic (m : Mapping) (h1 : OneToOne m) (h2 : Explicit m) :
+    ∃ inv, m.inverse = some inv ∧
+      ∀ p v q w, lk m.map sGeneric p v = some (q, some w) →
+        m.apply p v sGeneric = (q, some w) ∧ inv.apply q w sGeneric = (p, some v) := by
+  obtain ⟨inv, hinv, h⟩ := C18_inverse m h1 h2
+  refine ⟨inv, hinv, ?_⟩
+  intro p v q w hlk
+  have := h sGeneric p v q w hlk
+  simpa [Mapping.apply] using this
+
+/-- Non-vacuity: a chain `a:1 -> b:2`, `b:2 -> c:3` and a version bump `x:1.0 -> x:2.0` is one-to-one and explicit;
+`a:1 -> c:1` together with `b:1 -> c:1` is not, and `inverse()` raises. -/
+example :
+    let m := buildMapping false [
+      { inP := [97], inV := [49], outP := some [98], outV := some [50], flavor := sGeneric },
+      { inP := [98], inV := [50], outP := some [99], outV := some [51], flavor := sGeneric },
+      { inP := [120], inV := Str.ofString "1.0", outP := none, outV := some (Str.ofString "2.0"), flavor := sGeneric }]
+    OneToOne m ∧ Explicit m ∧ lk m.map sGeneric [97] [49] = some ([98], some [50]) := by
+  unfold OneToOne Explicit
+  decide
+
+example :
+    (buildMapping false [
+      { inP := [97], inV := [49], outP := some [99], outV := some [49], flavor := sGeneric },
+      { inP := [98], inV := [49], outP := some [99], outV := some [49], flavor := sGeneric }]).inverse.isNone = true := by
+  decide
+
+/-! ## the server side: `DistribServer.getTaggedProductList` / `getTaggedProductInfo` and their cache -/
+
+/-- **The answers of a server object do not depend on what it was asked before.**  Whatever the files on the server
+and whatever the history of requests (any tags, any flavors, in any order, with repetitions), every answer is the
+answer a fresh server object gives: the cache, keyed by (tag, flavor), only saves work. -/
+theorem C18_server_history_independent (files : List (Str × Str)) (history : List Req) (r : Req) :
+    (serve1 false files (cacheAfter false files [] history) r).1 = (serve1 false files [] r).1 := by
+  rw [(serve1_spec files _ r (cacheAfter_ok files history [] (cacheOk_nil files))).1, serve1_fresh]
+
+/-- the whole sequence of answers is the request-by-request sequence of fresh answers -/
+theorem C18_server_answers (files : List (Str × Str)) (reqs : List Req) :
+    serve false files [] reqs = reqs.map fun r => (serve1 false files [] r).1 := by
+  rw [serve_eq_fresh files reqs [] (cacheOk_nil files)]
+  apply List.map_congr_left
+  intro r _
+  rw [serve1_fresh]
+
+/-- **A tagged release read back through the server is the per-flavor filter of the written list**, after any
+history: the request for flavor `F` is answered with the entries of flavor `F` or `generic` (as `F`), in sorted order. -/
+theorem C18_server_flavor_filter (t : TagList) (fa : Option Str) (F : Str) (comments : List Str) (history : List Req)
+    (htag : ∀ c ∈ t.tag, c ≠ 10 ∧ c ≠ 13)
+    (hc : ∀ l ∈ comments, isBlankOrComment l = true ∧ ∀ c ∈ l, c ≠ 10 ∧ c ≠ 13)
+    (hnd : t.products.Nodup)
+    (hok : ∀ p ∈ t.products, TagEntryOk fa p ((assocGet t.info p).getD [])) :
+    (serve1 false [(t.tag, t.write fa comments)] (cacheAfter false [(t.tag, t.write fa comments)] [] history)
+        (Req.list t.tag (some F))).1 =
+      Ans.products ((sortStrs t.products).filterMap fun p => keepEntry fa F p ((assocGet t.info p).getD [])) := by
+  rw [C18_server_history_independent, serve1_fresh]
+  obtain ⟨r, hr, hg⟩ := C18_taglist_roundtrip t fa F comments htag hc hnd hok
+  simp only [freshAnswer, Req.tag, Req.flavor, parseList, assocGet, if_true, hr, answerFrom, hg]
+
+/-- **The flavor in the cache key is necessary (negation witness for a cache keyed by the tag alone):** a release with
+a Linux and a Linux64 entry; asked first for Linux64 and then for Linux, the tag-keyed server answers the second
+request with the Linux64 list, while the (tag, flavor)-keyed one answers it like a fresh server. -/
+theorem C18_server_tag_only_witness :
+    let t := ((TagList.empty (Str.ofString "current") (some (Str.ofString "Linux"))).addProduct (Str.ofString "afw")
+      (Str.ofString "1.0") none []).addProduct (Str.ofString "boost") (Str.ofString "2.0") (some (Str.ofString "Linux64")) []
+    let files := [(Str.ofString "current", t.write none [])]
+    let reqs := [Req.list (Str.ofString "current") (some (Str.ofString "Linux64")),
+                 Req.list (Str.ofString "current") (some (Str.ofString "Linux"))]
+    serve false files [] reqs =
+        [Ans.products [[Str.ofString "boost", Str.ofString "Linux64", Str.ofString "2.0"]],
+         Ans.products [[Str.ofString "afw", Str.ofString "Linux", Str.ofString "1.0"]]] ∧
+      serve true files [] reqs =
+        [Ans.products [[Str.ofString "boost", Str.ofString "Linux64", Str.ofString "2.0"]],
+         Ans.products [[Str.ofString "boost", Str.ofString "Linux64", Str.ofString "2.0"]]] := by
+  decide
+
+end EupsModel.C18
